@@ -23,6 +23,7 @@ import wbgen
 from wbgen import a1, col_letters, sheet_ref
 
 NAME = 'parsersim'
+FAULT_PROBES = ('env_calendar_firstweekday_changed', 'env_decimal_context_changed', 'env_warnings_filter_changed')
 NEEDS_REF = True
 RULE = {'': 'one run = 2-4 workbooks from a seeded corpus x 1-3 clients with 3-12 facade operations each (set path / set, replace, '
             're-pass or clear the entry cell / enable, disable safety / get / write / replace a workbook on disk) x a schedule '
@@ -231,7 +232,7 @@ def gen_plan(seed, cfg):
             f['errno'] = 'EIO'
             f['after'] = r.choice([0, 10, 500, 2000, 5000])
         faults.append(f)
-    plan = {'engine': NAME, 'seed': seed, 'swarm': swarm, 'workbooks': workbooks, 'clients': clients, 'faults': faults,
+    plan = {'engine': NAME, 'seed': seed, 'swarm': swarm, 'workbooks': workbooks, 'clients': clients, 'faults': faults, 'env': core.gen_env(seed),
             'schedule': {'mode': swarm['mode'], 'seed': core.derive(seed, 'schedule'), 'explicit': None, 'opcode': swarm['opcode'],
                          'quanta': swarm['quanta']}}
     return plan
@@ -345,7 +346,10 @@ def run(req, ctx):
     simclock.set_tz('UTC0')
     simclock.set_step_ns(0)
     simclock.set_ns(1_718_000_000 * 10**9)
+    env_fired = core.apply_env(plan.get('env'))      # the foreign reference process keeps the defaults
     res = execute(plan, ctx, want_trace=bool(req.get('plan')) or req.get('want_trace'))
+    for k_, v_ in env_fired.items():
+        res.setdefault('probes', {})[k_] = v_
     if req.get('want_plan') or res['mismatches']:
         res['plan'] = plan
     if not req.get('want_log'):
@@ -804,6 +808,10 @@ def shrink(plan, last=None):
     for i in range(len(plan['faults'])):
         p = clone()
         del p['faults'][i]
+        yield p
+    if plan.get('env'):
+        p = clone()
+        p['env'] = {}
         yield p
     if plan['swarm'].get('read_cap') or plan['swarm'].get('write_cap'):
         p = clone()
